@@ -354,6 +354,15 @@ class Places:
                 if st['k'] != 'Let' or st.get('init') is None: continue
                 src = self.raw(st['init'])
                 if src is None:
+                    # a listing of borrowed elements (`let ordered: Vec<&String> = vertices.iter().collect();`): while it lives the borrow checker
+                    # keeps the collection unchanged, and it holds the same elements in the collection's own order - the same storage for our purposes
+                    i0 = strip(st['init'])
+                    if i0['k'] == 'Call' and callee_decl(i0) == 'std::iter::Iterator::collect' and i0['args'] and str((i0.get('ty') or {}).get('s', '')).startswith('std::vec::Vec<&') \
+                            and not unwrap_pat(st['pat']).get('mutable'):
+                        src = self.raw(i0['args'][0])
+                        if src is not None:
+                            self.bind(st['pat'], src); continue
+                if src is None:
                     # a record built from places: `let g = Graph { edges, vertices };` (also behind `Ok(..)?` of an inlined helper): g.f is that place
                     rec = self.record(st['init'])
                     q = unwrap_pat(st['pat'])
@@ -583,7 +592,8 @@ def rule_max_clique(F, R):
     for e in all_ifs:
         if not e['else']: continue
         for x in walk(e['else']):
-            if x['k'] == 'Call' and callee_name(x) in ('std::collections::HashSet::iter',) and P.place(x['args'][0]) == X: n += 1
+            if x['k'] == 'Call' and x['args'] and ((callee_name(x) or '') in ('std::collections::HashSet::iter', 'core::slice::<impl [T]>::iter', 'std::collections::BTreeSet::iter') or
+                                                  callee_decl(x) == 'std::iter::IntoIterator::into_iter') and P.place(x['args'][0]) == X: n += 1
     R.count('L:vertex-list-uses', n); R.obligation(n == 3, 'L vertices uses')
     if n != 3: R.violation('max_clique_gen::main / L / vertex lists', 'L', 'the forall binder list and the two counting lists must each be generated from the vertex collection (found %d uses)' % n)
 
